@@ -6,6 +6,7 @@ import ast
 from ..astutil import dotted, is_none, norm, strip_docstring, walk_body
 from ..digest import Dyn, Loop, contributions, describe
 from ..dtree import decision_tree
+from ..finite import k_eq, k_is, k_none
 from ..report import Checker
 from ..srcmodel import Func, Unsupported
 
@@ -56,7 +57,7 @@ def r_leg_propagate(ck: Checker) -> None:
     g = ck.repo.func(LNODE, f"{CLS}._replace_child")
     # the statement(s) after the structural update
     leaves = decision_tree([st for st in strip_docstring(g.node.body) if isinstance(st, ast.If) and "_reset_content_id" in norm(st)])
-    k_none = "is(None,new)"
+    k_new_none = k_none("new")
     k_cid = "eq(new.content_id,old.content_id)"
     bad = []
     if not leaves:
@@ -64,10 +65,10 @@ def r_leg_propagate(ck: Checker) -> None:
     for lf in leaves:
         a = lf.assign
         resets = any("self._reset_content_id()" == norm(st) for st in lf.stmts)
-        if set(a) - {k_none, k_cid}:
+        if set(a) - {k_new_none, k_cid}:
             bad.append(f"decides on {sorted(a)}")
             continue
-        must = a.get(k_none) is True or a.get(k_cid) is False
+        must = a.get(k_new_none) is True or a.get(k_cid) is False
         if must and not resets:
             bad.append(f"{a}: content ids not refreshed")
     what = "_replace_child refreshes the content id of the parent chain whenever the child was removed or its content id differs"
@@ -118,7 +119,7 @@ def r_leg_link(ck: Checker) -> None:
     rc = ck.repo.func(LNODE, f"{CLS}._replace_child")
     leaves = decision_tree([st for st in strip_docstring(rc.node.body) if not (isinstance(st, ast.If) and "_reset_content_id" in norm(st))], max_atoms=6)
     bad = []
-    k_idx, k_new = "is(None,index)", "is(None,new)"
+    k_idx, k_new = k_none("index"), k_none("new")
     for lf in leaves:
         a = lf.assign
         st = [norm(s) for s in lf.stmts]
@@ -131,7 +132,7 @@ def r_leg_link(ck: Checker) -> None:
         if in_seq and removed:
             shift = [s for s in lf.stmts if isinstance(s, ast.For)]
             ok = len(shift) == 1 and "orig_seq[index + 1:]" in norm(shift[0].iter) and any(
-                "._set_parent(self, field, " in norm(x) and "parent_index) - 1" in norm(x) for x in shift[0].body)
+                "._set_parent(self, field, " in norm(x) and ("parent_index) - 1" in norm(x) or "parent_index - 1" in norm(x)) for x in shift[0].body)
             if not ok:
                 bad.append("removing a sequence element does not shift the later siblings' indices by -1")
             if not any("[*orig_seq[:index], *orig_seq[index + 1:]]" in s for s in st):
